@@ -71,14 +71,24 @@ def tolerance_gate(r: R, chk, rule_prefix: str = ""):
     chk.floor("GATE-TOL", "tolerance comparison guarding a ValueError in update", len(gates), 1)
     # the refusal is `error > tolerance`: an error EQUAL to the tolerance is within it — with exact data the error of a removable
     # knot is exactly 0, and tolerance = 0 is a meaningful request
+    def polar(e, pol=True):
+        """(comparison, polarity) pairs of a test: polarity False under an odd number of `not`"""
+        if isinstance(e, ast.UnaryOp) and isinstance(e.op, ast.Not):
+            yield from polar(e.operand, not pol)
+        elif isinstance(e, ast.BoolOp):
+            for v_ in e.values:
+                yield from polar(v_, pol)
+        elif isinstance(e, ast.Compare):
+            yield e, pol
+
     for g in gates:
-        for c in ast.walk(g[0].ast):
+        for c, pol_ in polar(g[0].ast):
             if isinstance(c, ast.Compare) and len(c.ops) == 1 and isinstance(c.ops[0], (ast.Gt, ast.GtE, ast.Lt, ast.LtE)):
                 names_l = {x.id for x in ast.walk(c.left) if isinstance(x, ast.Name)}
                 names_r = {x.id for x in ast.walk(c.comparators[0]) if isinstance(x, ast.Name)}
                 if not (("tolerance" in names_l | names_r) and (names_l | names_r) & fit_targets):
                     continue
-                raising_when_true = g[1] == "f"  # the passing arm is the false arm: the test being true raises
+                raising_when_true = (g[1] == "f") == pol_  # the passing arm is the false arm: the test being true raises (flipped under `not`)
                 op = c.ops[0]
                 err_left = bool(names_l & fit_targets)
                 # raise iff error > tolerance:  (error > tol) true raises; (tol < error) true raises; (error <= tol) false raises; (tol >= error) false raises
